@@ -36,19 +36,23 @@ CB_FORMS = {"call0": (), "callx": (("x", None),), "kwcb": (("x", None),)}
 # signatures
 
 
-def _default_choices(names, i):
+def _default_choices(names, i, earlier):
     out = [("c", "D" + names[i]), ("o",)]
-    out += [("p", names[j]) for j in range(i)]
+    if earlier == "all":
+        out += [("p", names[j]) for j in range(i)]
+    elif i:
+        out.append(("p", names[i - 1]))
     return out
 
 
-def plain_param_lists(nmax, names="abcd", max_defaults=3):
-    """all parameter lists a,b,c,d with n<=nmax, trailing k<=3 defaults of every kind."""
+def plain_param_lists(nmax, names="abcd", max_defaults=3, earlier="all"):
+    """all parameter lists a,b,c,d with n<=nmax, trailing k<=3 defaults of every kind
+    (earlier="all": a default may name any earlier parameter; "prev": the one before it)."""
     for n in range(nmax + 1):
         ns = list(names[:n])
         for k in range(min(n, max_defaults) + 1):
             idx = list(range(n - k, n))
-            for combo in itertools.product(*[_default_choices(ns, i) for i in idx]):
+            for combo in itertools.product(*[_default_choices(ns, i, earlier) for i in idx]):
                 params = [(ns[i], None) for i in range(n - k)]
                 params += [(ns[i], d) for i, d in zip(idx, combo)]
                 yield tuple(params)
@@ -106,8 +110,12 @@ def signatures(param_lists):
 # calls
 
 
+FULL_SEQS = ((0, "after"), (1, "after"), (2, "after"), (1, "before"))
+QUICK_SEQS = ((1, "after"), (2, "after"), (1, "before"))
+
+
 def calls_for(params, max_pos=5, max_kw=4, forms=("expr", "call0", "callx", "kwcb"),
-              seqs=True, maps=True):
+              seqs=FULL_SEQS, maps=True, empty_map=True):
     names = [n for n, _ in params] + ["z"]
     kw_sets = []
     for r in range(min(max_kw, len(names)) + 1):
@@ -115,13 +123,10 @@ def calls_for(params, max_pos=5, max_kw=4, forms=("expr", "call0", "callx", "kwc
     for npos in range(max_pos + 1):
         for kws in kw_sets:
             seq_opts = [None]
-            if seqs:
-                seq_opts += [(0, "after"), (1, "after"), (2, "after")]
-                if kws:
-                    seq_opts.append((1, "before"))
+            seq_opts += [q for q in seqs if q[1] == "after" or kws]
             map_opts = [None]
             if maps:
-                cand = [(), ("y",)]
+                cand = [(), ("y",)] if empty_map else [("y",)]
                 if params:
                     cand.append((params[-1][0],))
                 if kws:
